@@ -10,6 +10,7 @@ From Coq Require Import ZArith QArith List Bool Arith Lia.
 From VL Require Import Prelude.PyDict Model.GetNBest Model.Divisor Model.HighestAverages Model.QuotaDistributor Model.STV
      Proofs.Dict_proofs Proofs.GetNBest_proofs Proofs.QOrd Proofs.HA_proofs Proofs.Divisor_proofs Proofs.Shape_proofs
      Proofs.QD_proofs Proofs.STV_proofs.
+From VL Require Model.Convert Model.Condorcet Model.Cardinal Model.Bucklin Model.Star Proofs.Shape2_proofs.
 Import ListNotations.
 
 (* normal form of every get_n_best result (plurality, approval, positional, score voting ... all end
@@ -75,9 +76,151 @@ Example C08_example :
   sel_shape_ok [1; 2; 3]%positive 2 [Cand 1%positive; Cand 1%positive] = false.
 Proof. vm_compute. repeat split; reflexivity. Qed.
 
+(* ---------------------------------------------------------------------------------------------------------------
+   The shape clause for the evaluators that do not simply END in one get_n_best call (Proofs/Shape2_proofs.v).
+   Every theorem is over the whole model function: all profiles, all seat counts 1 <= n <= candidates present,
+   every configuration.  The proofs establish the stronger normal form [Shape2_proofs.nform] (plain winners then
+   k copies of ONE tie with more than k members) and conclude [sel_shape] from it. *)
+
+(* Copeland, raw and with second-order tie-breaking; any pairwise dictionary (no sign / distinct-key hypothesis) *)
+Theorem C08_shape_copeland : forall (second_order : bool) (v : Condorcet.pvotes) (n : nat),
+  (1 <= n <= length (Condorcet.candidates v))%nat ->
+  sel_shape (Condorcet.candidates v) n (Condorcet.copeland second_order v n).
+Proof. intros so v n Hn. apply Shape2_proofs.nform_shape, Shape2_proofs.copeland_nform, Hn. Qed.
+
+(* minimax, all three scorers; the pairwise dictionary holds a real contest (two candidates: a dictionary with
+   only a diagonal pair is not a pairwise vote) *)
+Theorem C08_shape_minimax : forall (s : Condorcet.scorer) (v : Condorcet.pvotes) (n : nat),
+  (2 <= length (Condorcet.candidates v))%nat -> (1 <= n <= length (Condorcet.candidates v))%nat ->
+  sel_shape (Condorcet.candidates v) n (Condorcet.minimax s v n).
+Proof. intros s v n H2 Hn. apply Shape2_proofs.nform_shape, Shape2_proofs.minimax_nform; assumption. Qed.
+
+(* Schulze, whatever the iteration order of the candidate set (even one listing strangers) *)
+Theorem C08_shape_schulze : forall (v : Condorcet.pvotes) (order : list C) (n : nat),
+  (1 <= n <= length (Condorcet.candidates v))%nat ->
+  sel_shape (Condorcet.candidates v) n (Condorcet.schulze v order n).
+Proof. intros v order n Hn. apply Shape2_proofs.nform_shape, Shape2_proofs.schulze_nform, Hn. Qed.
+
+(* Kemeny-Young and ranked pairs: whenever they answer, n distinct plain candidates, no tie object *)
+Theorem C08_shape_kemeny : forall (v : Condorcet.pvotes) (n : nat) (r : list (res C)),
+  (n <= length (Condorcet.candidates v))%nat -> Condorcet.kemeny v n = Condorcet.CR_ok r ->
+  sel_shape (Condorcet.candidates v) n r /\ ties_of r = [].
+Proof.
+  intros v n r Hn H. split; [apply Shape2_proofs.nform_shape, (Shape2_proofs.kemeny_nform v n r Hn H)|].
+  destruct (Kemeny_proofs.kemeny_defining v n r H) as (p & _ & _ & -> & _). apply ties_of_cands.
+Qed.
+
+Theorem C08_shape_ranked_pairs : forall (s : Condorcet.scorer) (v : Condorcet.pvotes) (n : nat) (r : list (res C)),
+  (2 <= length (Condorcet.candidates v))%nat -> (n <= length (Condorcet.candidates v))%nat ->
+  Condorcet.ranked_pairs s v n = Condorcet.CR_ok r ->
+  sel_shape (Condorcet.candidates v) n r /\ ties_of r = [].
+Proof.
+  intros s v n r H2 Hn H. split; [apply Shape2_proofs.nform_shape, (Shape2_proofs.ranked_pairs_nform s v n r H2 Hn H)|].
+  destruct (RankedPairs_proofs.ranked_pairs_ranking v s H2 n) as (p & Hr & _). rewrite Hr in H. injection H as <-. apply ties_of_cands.
+Qed.
+
+(* score voting (every aggregation / unscored-value / truncation configuration) and majority judgment (both
+   tie-breakers, every number of seats): whenever an answer is returned (no declared refusal) *)
+Theorem C08_shape_score : forall (cf : Cardinal.score_cfg) (votes : Cardinal.sprofile) (n : nat) (r : list (res C)),
+  (1 <= n <= length (Shape2_proofs.score_cands votes))%nat -> Cardinal.score_voting cf votes n = inl r ->
+  sel_shape (Shape2_proofs.score_cands votes) n r.
+Proof. intros cf votes n r Hn H. apply Shape2_proofs.nform_shape, (Shape2_proofs.score_nform cf votes n r Hn H). Qed.
+
+Theorem C08_shape_mj : forall (plus : bool) (cf : Cardinal.score_cfg) (votes : Cardinal.sprofile) (n : nat) (r : list (res C)),
+  (1 <= n <= length (Shape2_proofs.score_cands votes))%nat -> Cardinal.majority_judgment plus cf votes n = inl r ->
+  sel_shape (Shape2_proofs.score_cands votes) n r.
+Proof. intros plus cf votes n r Hn H. apply Shape2_proofs.nform_shape, (Shape2_proofs.mj_nform plus cf votes n r Hn H). Qed.
+
+(* PAV (any n: it refuses when fewer than n candidates stand) and sequential PAV: n distinct plain candidates *)
+Theorem C08_shape_pav : forall (votes : Cardinal.aprofile) (n : nat) (r : list (res C)),
+  Cardinal.pav votes n = Cardinal.AR_ok r -> sel_shape (Shape2_proofs.approval_cands votes) n r.
+Proof. intros votes n r H. apply Shape2_proofs.nform_shape, (Shape2_proofs.pav_nform votes n r H). Qed.
+
+Theorem C08_shape_spav : forall (votes : Cardinal.aprofile) (n : nat) (r : list C),
+  (n <= length (Shape2_proofs.approval_cands votes))%nat -> Cardinal.spav votes n = Some r ->
+  sel_shape (Shape2_proofs.approval_cands votes) n (map Cand r).
+Proof. intros votes n r Hn H. apply Shape2_proofs.nform_shape, (Shape2_proofs.spav_nform votes n r Hn H). Qed.
+
+(* preference addition (Bucklin, Oklahoma, any coefficients; with or without decoupling of shared ranks, either
+   splicing loop).  The full clause - exactly n entries - is FALSE of the code (known finding
+   C08-preference-addition-short); what holds for every input: at most n entries, well-shaped for their number over
+   the candidates of the original ballots, and a short answer consists of distinct plain candidates only *)
+Definition C08_shape_bucklin_full_statement : Prop :=
+  forall (fx : bool) (votes : list (Convert.ranked * Q)) (n : nat) (r : list (res C)),
+    (1 <= n <= length (Convert.canon_set (Shape2_proofs.pa_cands votes)))%nat ->
+    Bucklin.bucklin fx votes n = Bucklin.PA_ok r -> sel_shape (Shape2_proofs.pa_cands votes) n r.
+
+Theorem C08_shape_bucklin_partial : forall (fx : bool) (coef : nat -> Q) (split : bool) (votes : list (Convert.ranked * Q))
+    (n : nat) (r : list (res C)),
+  Bucklin.pa_eval fx coef split votes n = Bucklin.PA_ok r ->
+  (length r <= n)%nat /\ sel_shape (Shape2_proofs.pa_cands votes) (length r) r /\ ((length r < n)%nat -> ties_of r = []).
+Proof. exact Shape2_proofs.pa_shape. Qed.
+
+Theorem C08_shape_bucklin_refuted : ~ C08_shape_bucklin_full_statement.
+Proof.
+  intros H. destruct Shape2_proofs.pa_full_refuted as (Hc & Hb & _).
+  assert (Hn : (1 <= 2 <= length (Convert.canon_set (Shape2_proofs.pa_cands Shape2_proofs.pa_short_votes)))%nat) by (rewrite Hc; simpl; lia).
+  destruct (H false _ 2%nat _ Hn Hb) as [Hlen _]. discriminate Hlen.
+Qed.
+
+(* the same for STAR (default configuration): Schulze over the run-off counts is well-shaped whenever those counts
+   name n candidates; they need not (known finding C08-star-short) *)
+Theorem C08_shape_star_partial : forall (votes : Cardinal.sprofile) (order : list C) (n : nat) (r : list (res C)) agg,
+  Cardinal.score_to_simple Star.star_cfg votes = inl agg ->
+  let pv := Star.star_pairwise votes (Star.star_members (get_n_best Qle_bool agg (n + 1))) in
+  (1 <= n <= length (Condorcet.candidates pv))%nat -> Star.star votes order n = inl r ->
+  sel_shape (Condorcet.candidates pv) n r.
+Proof. intros votes order n r agg Ha pv Hn H. apply Shape2_proofs.nform_shape, (Shape2_proofs.star_nform votes order n r agg Ha Hn H). Qed.
+
+Theorem C08_shape_star_refuted : exists votes : Cardinal.sprofile,
+  length (Shape2_proofs.score_cands votes) = 3%nat /\ Star.star_auto votes 1 = inl [].
+Proof. exists Shape2_proofs.star_short_votes. destruct Shape2_proofs.star_full_refuted as [Hc Hs]. rewrite Hc. split; [reflexivity|exact Hs]. Qed.
+
+(* non-vacuity of the hypotheses: a three-candidate cycle above a common loser; minimax (a three-way tie for two
+   seats), Copeland with second-order tie-breaking (the tie remains) and Schulze answer in shape *)
+Example C08_shape_example :
+  let p := fun (a b m : Z) => ((Z.to_pos a, Z.to_pos b), m) in
+  let v : Condorcet.pvotes := [p 1 2 3; p 2 1 1; p 2 3 3; p 3 2 1; p 3 1 3; p 1 3 1;
+                               p 1 4 3; p 4 1 0; p 2 4 3; p 4 2 0; p 3 4 3; p 4 3 0]%Z in
+  length (Condorcet.candidates v) = 4%nat /\
+  Condorcet.minimax Condorcet.Margins v 2 = [TieR [2; 3; 1]%positive; TieR [2; 3; 1]%positive] /\
+  Condorcet.copeland true v 1 = [TieR [1; 2; 3]%positive] /\
+  Condorcet.schulze v (Condorcet.candidates v) 3 = [Cand 1; Cand 2; Cand 3]%positive /\
+  sel_shape_ok (Condorcet.candidates v) 2 (Condorcet.minimax Condorcet.Margins v 2) = true.
+Proof. vm_compute. repeat split; reflexivity. Qed.
+
+(* ... and the cardinal / approval rules answer (no refusal) on ordinary profiles: majority judgment breaks a tie of
+   medians (both tie-breakers), SPAV and PAV fill two of three seats *)
+Example C08_shape_example_cardinal :
+  let cf := {| Cardinal.sc_fn := Cardinal.FMedianLow; Cardinal.sc_unscored := Cardinal.UNone; Cardinal.sc_min_count := 0%Z;
+               Cardinal.sc_trunc := 0%Q; Cardinal.sc_bottom := 0%Q |} in
+  let b := fun x y z : Z => [(1%positive, inject_Z x); (2%positive, inject_Z y); (3%positive, inject_Z z)] in
+  let v : Cardinal.sprofile := [(b 3 3 1, 2); (b 2 4 1, 1); (b 3 3 3, 1)]%Z in
+  let a : Cardinal.aprofile := [([1; 2]%positive, 3 # 1); ([2; 3]%positive, 2 # 1); ([3]%positive, 2 # 1)]%Q in
+  Shape2_proofs.score_cands v = [1; 2; 3]%positive /\
+  Cardinal.majority_judgment false cf v 1 = inl [Cand 2%positive] /\ Cardinal.majority_judgment true cf v 1 = inl [Cand 2%positive] /\
+  Cardinal.majority_judgment false cf v 2 = inl [Cand 1%positive; Cand 2%positive] /\
+  Cardinal.score_voting cf v 2 = inl [Cand 1%positive; Cand 2%positive] /\
+  Shape2_proofs.approval_cands a = [1; 2; 3]%positive /\
+  Cardinal.spav a 2 = Some [2; 3]%positive /\ Cardinal.pav a 2 = Cardinal.AR_ok [Cand 2%positive; Cand 3%positive].
+Proof. vm_compute. repeat split; reflexivity. Qed.
+
 Print Assumptions C08_selection_normal_form.
 Print Assumptions C08_selection_shape.
 Print Assumptions C08_checker_reflects.
 Print Assumptions C08_highest_averages_distribution.
 Print Assumptions C08_largest_remainder_total.
 Print Assumptions C08_transferable_vote_count.
+Print Assumptions C08_shape_copeland.
+Print Assumptions C08_shape_minimax.
+Print Assumptions C08_shape_schulze.
+Print Assumptions C08_shape_kemeny.
+Print Assumptions C08_shape_ranked_pairs.
+Print Assumptions C08_shape_score.
+Print Assumptions C08_shape_mj.
+Print Assumptions C08_shape_pav.
+Print Assumptions C08_shape_spav.
+Print Assumptions C08_shape_bucklin_partial.
+Print Assumptions C08_shape_bucklin_refuted.
+Print Assumptions C08_shape_star_partial.
+Print Assumptions C08_shape_star_refuted.
